@@ -91,7 +91,8 @@ class Run:
             "samples": self.samples[:20] or [{"note": "no sample recorded"}],
             "labels": dict(self.labels),
             "per_universe": self.per_universe,
-            "known_findings_seen": dict(self.known.seen),
+            "known_findings_seen": {k: v for k, v in self.known.seen.items()},
+            "excluded_undecided_disagreements": self.known.undecided_seen(),
             "excluded_by_construction": dict(self.excluded),
             "skipped_precondition": dict(self.skipped),
             "inconclusive": self.inconclusive,
